@@ -108,11 +108,10 @@ PROPS = {
         "trusted_base": ["Verus 0.2026.09.13 + Z3 (units R and Q)"],
         "assumptions": [
             "slab contracts and lock erasure as for C09",
-            "unit Q: Command::run_task's verdict is taken as given (havoc contract): Completed/Cancelled mean the task can never run again",
+            "unit Q: Command::run_task's verdict is taken as given (havoc contract): Completed/Cancelled mean the task can never run again; QueuingExecutor::run_task is extracted and proved (a completed task frees its slot)",
             "unit Q: a Task taken from the spawn queue is a task the command has not held before (moved, never cloned)",
         ],
         "not_decided": [
-            "executor task futures and captured values being dropped (drop glue; QueuingExecutor::run_task uses Mutex, Arc, Context)",
             "that dropping the removed Task drops everything it captured (Rust drop glue)",
             "Core field drop order; the global cleared-timer set (cross-call history, F8)",
         ],
@@ -123,8 +122,9 @@ PROPS = {
         "trusted_base": ["Verus 0.2026.09.13 + Z3 (unit Q: extracted run_all, process, process_event, resolve, receive, Drain::next, run_until_settled, spawn_new_tasks, is_done, poll_next)"],
         "assumptions": [
             "crossbeam-channel unbounded channels used sequentially are FIFO queues: try_recv returns the head iff non-empty and removes it, send appends, is_empty reads (assumed contracts in verus/Q/unit.rs)",
-            "everything that runs user code (QueuingExecutor::run_task, Command::run_task, App::update, Request::resolve's continuation, join-handle wakers) is HAVOC on every queue restricted to appending to the event/effect queues; run_task == Missing changes nothing",
-            "sequential reading: no other thread is polling a task (RunTask::Unavailable does not occur); C08 is not claimed",
+            "everything that runs user code (polling a task's future, Command::run_task, App::update, Request::resolve's continuation, join-handle wakers) is HAVOC on every queue restricted to appending to the event/effect queues; QueuingExecutor::run_task itself is extracted and proved",
+            "sequential reading: between calls no executor slot is empty (QueuingExecutor::idle: no other thread is polling a task), so RunTask::Unavailable does not occur; C08 is not claimed",
+            "the executor's task Mutex is erased to exclusive access (rule X4: &self -> &mut self up to Core::process_event/resolve)",
             "CommandSpawner::spawn puts exactly one future on the executor's spawn queue (async forwarding loop not verified)",
             "Iterator::collect over Drain is the loop `while let Some(x) = next() { push }` (rule X13), verified against the extracted Drain::next",
             "the core's channels are never disconnected while the Core exists (it owns a sender of each)",
